@@ -155,16 +155,18 @@ Conv(m, an) ==
                                    ELSE IF a.dt = M.dt /\ a.nd = M.nd THEN "ok" ELSE "ValueError")
          ELSE IF a.cls = "none" THEN "nodemand" ELSE "TypeError"
 
-(* sig: chosen member per fused type; par: fused index of every parameter    *)
-RECURSIVE ConvFrom(_, _, _, _)
-ConvFrom(sig, par, args, i) ==
-  IF i > Len(par) THEN Ret([j \in 1..Len(par) |-> sig[par[j]]], [j \in 1..Len(par) |-> Conv(sig[par[j]], args[j]) = "ok"])
-  ELSE LET c == Conv(sig[par[i]], args[i]) IN
-       IF c \in {"ok", "tyonly"} THEN ConvFrom(sig, par, args, i + 1)
-       ELSE IF c = "nodemand" THEN AnyO ELSE Exc(c)
+(* sig: chosen member per fused type; par: fused index of every parameter.    *)
+(* All conversions fine -> the call returns; one that carries no demand ->    *)
+(* no demand on the call; several failing ones -> only an agreed exception is *)
+(* demanded (C-level conversions run before the type tests of object-typed    *)
+(* parameters, so "the first failing parameter" is not what decides).         *)
+Convs(sig, par, args) == [j \in 1..Len(par) |-> Conv(sig[par[j]], args[j])]
 ConvOut(sig, par, args) ==
-  \* a later "nodemand" makes the whole call undemanded unless an earlier conversion raises
-  LET r == ConvFrom(sig, par, args, 1) IN r
+  LET cs  == Convs(sig, par, args)
+      bad == {cs[j] : j \in {j \in 1..Len(par) : cs[j] \notin {"ok", "tyonly"}}}
+  IN IF bad = {} THEN Ret([j \in 1..Len(par) |-> sig[par[j]]], [j \in 1..Len(par) |-> cs[j] = "ok"])
+     ELSE IF "nodemand" \in bad \/ Cardinality(bad) > 1 THEN AnyO
+     ELSE Exc(CHOOSE e \in bad : TRUE)
 
 ---------------------------------------------------------------------------
 (* reference selection *)
@@ -263,11 +265,17 @@ FAll(b) == [k \in FK |-> b]
 RefinesRank(S) == \A x, y \in S : T[x].py = T[y].py /\ T[x].r > T[y].r => Lt(x, y, FAll(FALSE))
 NonBuf(F) == {m \in Range(F) : T[m].k # "buf"}
 HzSort(F)      == ~WeakOrder(NonBuf(F), FAll(FALSE)) \/ ~RefinesRank(NumOf(F))
-HzIdSort(F, fl) == HasBuf(F) /\ ~WeakOrder(Range(F), fl)
 HzBool(F, a)   == A[a].cls = "bool" /\ "bint" \in Range(F) /\ \E m \in Range(F) : T[m].k = "int"
-HzOne(F, a, fl) == (IF HzSort(F) /\ (\E m \in Range(F) : Corr(m, a)) THEN {"sort"} ELSE {})
-              \cup (IF HzBool(F, a) THEN {"bool"} ELSE {})
-              \cup (IF HzIdSort(F, fl) /\ (\E m \in Range(F) : Corr(m, a)) THEN {"idsort"} ELSE {})
+\* does the answer of the modelled mapper meet the reference?
+DestOK(F, a, dst) == NoDemandSel(F, a) \/ (IF dst = "None" THEN RefSel(F, a) = {} ELSE dst \in RefSel(F, a))
+\* ... and if not, which structural class explains it: idsort = the deviation disappears when
+\* memoryview types never compare lower; bool = bint member, bool argument, an integer member;
+\* sort = the comparison is no strict weak order refining rank on the non-buffer members
+HzType(F, a, g) ==
+  IF DestOK(F, a, ImplMap(F, a, g)) THEN {}
+  ELSE IF DestOK(F, a, ImplMap(F, a, FAll(FALSE))) THEN (IF HasBuf(F) /\ ~WeakOrder(Range(F), g) THEN {"idsort"} ELSE {})
+  ELSE IF HzBool(F, a) THEN {"bool"}
+  ELSE IF HzSort(F) /\ (\E m \in Range(F) : Corr(m, a)) THEN {"sort"} ELSE {}
 
 ---------------------------------------------------------------------------
 (* declarations and cases *)
@@ -287,10 +295,11 @@ RefCall(d, args) ==
 \* explicit indexing: key = one name per fused type
 RefIndex(d, key, args) == IF key \in Sigs(d) THEN {ConvOut(key, Par(d), args)} ELSE {Exc("KeyError")}
 
-HzWild(d, args) == d.mode = "two" /\ \E i \in 1..2 : Len(Fu(d, i)) = 1 /\ RefSel(Fu(d, i), args[i]) = {}
-Hz(d, args, fl) == UNION {HzOne(Fu(d, i), ArgOf(d, args, i), fl) : i \in 1..NF(d)}
-                   \cup (IF HzWild(d, args) THEN {"wild"} ELSE {})
-
+\* the None wildcard of index_signature resolves although the reference finds no member
+HzWild(d, args, g) == d.mode = "two" /\ (\E i \in 1..2 : ImplMap(Fu(d, i), args[i], g) = "None" /\ RefSel(Fu(d, i), args[i]) = {})
+                      /\ Cardinality({s \in Sigs(d) : \A i \in 1..2 : ImplMap(Fu(d, i), args[i], g) \in {"None", s[i]}}) = 1
+Hz(d, args, g) == UNION {HzType(Fu(d, i), ArgOf(d, args, i), g) : i \in 1..NF(d)}
+                  \cup (IF HzWild(d, args, g) THEN {"wild"} ELSE {})
 Seqs(U, n) == UNION {{s \in [1..k -> U] : \A i, j \in 1..k : i # j => s[i] # s[j]} : k \in 1..n}
 In == IF Part \in {"replay", "split"} THEN ndJsonDeserialize(IOEnv.C34_IN) ELSE <<>>
 MeasuredFlags == IF Part \in {"replay", "split"} THEN In[1].flags ELSE FAll(FALSE)
@@ -403,6 +412,11 @@ Want == IF op = "index" THEN RefIndex(d, key, args) ELSE RefCall(d, args)
 Agrees == AnyO \in Want \/ out \in Want
 HzNow == IF op = "call" THEN Hz(d, args, fl) ELSE {}
 
+(* every deviation of the modelled mapper from the reference has a structural explanation *)
+DeviationsExplained == op = "call" /\ dest = <<>> /\ pc = "map" =>
+   \A i \in 1..NF(d) : LET F == Fu(d, i)  a == ArgOf(d, args, i) IN
+      DestOK(F, a, ImplMap(F, a, fl)) \/ HzType(F, a, fl) # {}
+
 (* the reference is a partial function exactly where the rules say so *)
 RefPartial == op = "call" /\ dest = <<>> /\ pc = "map" =>
    \A i \in 1..NF(d) : LET F == Fu(d, i)  a == ArgOf(d, args, i)  S == RefSel(F, a) IN
@@ -443,6 +457,7 @@ PublishSplit == Part = "split" =>
 PublishReplay == Part = "replay" /\ pc = "done" =>
    PrintT("@@" \o ToJson([id |-> id, op |-> op, key |-> key, args |-> args, want |-> SetSeq(Want), impl |-> out,
                           hz |-> SetSeq(IF Agrees THEN {} ELSE HzNow), dest |-> dest, fn |-> fn, path |-> path,
+                          convs |-> (IF fn = <<>> THEN <<>> ELSE Convs(fn, Par(d), args)),
                           alts |-> SetSeq(IF op = "call" /\ (HasBuf(d.f1) \/ (d.mode = "two" /\ HasBuf(d.f2)))
                                           THEN {ImplCall(d, args, g) : g \in AltFlags} \ {out} ELSE {})]))
 =============================================================================
